@@ -39,6 +39,9 @@ type Scenario struct {
 	// OnDeadlock / OnPanic: signature producers; nil = report as harness error
 	DeadlockIsViolation bool
 	PanicIsViolation    bool
+	// OnceOnly: violations are facts reported once per process by an external oracle (the race runtime de-duplicates
+	// its reports), so they cannot be confirmed by replaying the schedule.
+	OnceOnly bool
 }
 
 type Stats struct {
@@ -149,8 +152,13 @@ func TraceString(s *vsched.Sched) string {
 func Explore(run *ev.Run, prop string, sc Scenario) Stats {
 	st := Stats{Distinct: map[string]int64{}, Complete: true}
 	// determinism self-test: default schedule twice
-	_, o1, _, e1 := runOnce(sc, nil)
-	_, o2, _, e2 := runOnce(sc, nil)
+	x1, o1, v1, e1 := runOnce(sc, nil)
+	_, o2, v2, e2 := runOnce(sc, nil)
+	if sc.OnceOnly && e1 == nil && e2 == nil {
+		for _, v := range append(v1, v2...) {
+			run.Violation(prop+" "+v.Signature, v.Message+" | schedule: "+TraceString(x1.Sched), Replay{Scenario: sc.Name, Choices: x1.Choices})
+		}
+	}
 	if e1 != nil || e2 != nil || o1 != o2 {
 		run.HarnessError(fmt.Sprintf("%s/%s: determinism self-test failed (%v / %v) obs equal=%v", prop, sc.Name, e1, e2, o1 == o2))
 		st.Complete = false
@@ -180,7 +188,12 @@ func Explore(run *ev.Run, prop string, sc Scenario) Stats {
 			st.Deadlocks++
 		}
 		st.Distinct[obs]++
-		if len(viols) > 0 {
+		if len(viols) > 0 && sc.OnceOnly {
+			for _, v := range viols {
+				run.Violation(prop+" "+v.Signature, v.Message+" | schedule: "+TraceString(x.Sched),
+					Replay{Scenario: sc.Name, Choices: x.Choices, Trace: strings.Fields(TraceString(x.Sched))})
+			}
+		} else if len(viols) > 0 {
 			// believe a failure only if the same schedule fails identically twice more
 			_, obsA, vA, eA := runOnce(sc, x.Choices)
 			_, obsB, vB, eB := runOnce(sc, x.Choices)
